@@ -556,7 +556,7 @@ class Gen:
         if c < 0.22 or not vis:
             x = self.fresh()
             k = r.choice(["int", "int", "int", "list", "obj", "opt"])
-            cst = r.random() < 0.5
+            cst = r.random() < 0.35
             if k == "obj" and not any(kk[0] == "boxclass" for _, kk in vis):
                 k = "int"
             cur[x] = (k, cst)
@@ -661,6 +661,7 @@ def run(ctx):
 
     matrix = {}
     inapplicable, spec_fail, dis = [], 0, 0
+    nb_runtime = []
     n_app = n_reject = n_shadow = n_copy = 0
     nontrivial = set()
     for t, (r, n), m in zip(triples, results, mv_main):
@@ -676,7 +677,9 @@ def run(ctx):
             continue
         if n is not None:
             nv = verdict(*n)
-            if nv != "accepted":
+            if nv == "runtime":
+                nb_runtime.append(tid)
+            if nv not in ("accepted", "runtime"):
                 d = DIAG.search(n[1])
                 why = [l for l in n[1].splitlines() if l.strip().startswith("=")]
                 inapplicable.append({"triple": tid, "neighbour_verdict": nv, "why": (why[0].strip() if why else n[2].strip()[:120])})
@@ -724,6 +727,9 @@ def run(ctx):
                     spec_fail += 1
                     ctx.report("const-value-changed:%s" % t["form"],
                                "the constant does not keep its initializer %s after `%s` from `%s` (%s): printed %r" % (init_txt, t["form"], t["wctx"], tid, obs), replay)
+            elif v == "runtime" and n is not None and verdict(*n) == "runtime":
+                # not a const matter: the non-const neighbour fails in the same way while running
+                nb_runtime.append(tid + " (shadow case: both fail at run time)")
             elif v != "rejected":
                 spec_fail += 1
                 ctx.report("const-shadow-crash:%s" % t["form"], "program %s neither rejected nor run to completion: %s" % (tid, v), replay)
@@ -783,6 +789,7 @@ def run(ctx):
     ctx.cov["expected_copy"] = n_copy
     ctx.cov["inapplicable"] = len(inapplicable)
     ctx.cov["inapplicable_list"] = inapplicable
+    ctx.cov["neighbour_compiles_but_fails_at_run_time"] = nb_runtime
     ctx.cov["distinct_nontrivial"] = len(nontrivial)
     ctx.cov["matrix"] = matrix
     ctx.cov["exhaustive"] = True
